@@ -33,6 +33,8 @@ type Schedule struct {
 	Fam   string         `json:"fam,omitempty"`
 	Frag  map[string]int `json:"frag,omitempty"`
 	Seed  uint64         `json:"seed,omitempty"`
+	// TextBase is added to the text ids of Send steps
+	TextBase int `json:"textbase,omitempty"`
 	// NoKeys: parties created without a long-term key
 	NoKeys []string `json:"nokeys,omitempty"`
 	Steps  []Step   `json:"steps"`
@@ -63,6 +65,7 @@ func newWorld(sc *Schedule, seed uint64, out *os.File) *world.World {
 			}
 		}
 	}
+	w.TextBase = sc.TextBase
 	fam := sc.Fam
 	if fam == "" {
 		fam = "none"
@@ -322,6 +325,12 @@ func cmdGen(args []string) int {
 var genIdx int
 
 func genSchedule(rng *rand.Rand, family string, depth int) *Schedule {
+	if family == "qlife" || family == "qerrlife" {
+		// the lifecycle families with texts that begin like a query message
+		sc := genSchedule(rng, family[1:], depth)
+		sc.TextBase = 6000
+		return sc
+	}
 	sc := &Schedule{Pol: map[string]int{}, Ver: map[string]int{}, Frag: map[string]int{}}
 	switch rng.Intn(3) {
 	case 0:
